@@ -93,7 +93,12 @@ from .client_callbacks import (
     on_state_msg,
     on_subscribe_home_assistant_state_response,
 )
-from .connection import APIConnection, ConnectionParams, handle_timeout
+from .connection import (
+    APIConnection,
+    ConnectionParams,
+    ConnectionState,
+    handle_timeout,
+)
 from .core import (
     APIConnectionError,
     BluetoothConnectionDroppedError,
@@ -370,12 +375,15 @@ class APIClient:
         try:
             await coro
         except (Exception, asyncio.CancelledError):  # pylint: disable=broad-except
-            if self._connection is connection and not (
-                connection is not None and connection.is_connected
+            if self._connection is connection and (
+                connection is None
+                or connection.connection_state is ConnectionState.CLOSED
             ):
-                # A call that was refused without touching an established
-                # session (ie. finish_connection called a second time)
-                # must not make the client forget the live connection.
+                # A connect phase that fails always closes its connection.
+                # A call that was refused without touching the connection
+                # (ie. finish_connection called a second time, or while
+                # another task is still connecting) must not make the
+                # client forget a live session or an attempt in progress.
                 self._connection = None
             raise
 
